@@ -43,6 +43,12 @@ def classify(case, rej, events):
     if "rec" not in case:
         return None
     tag = recur.known_class(case["rec"])
+    if tag == "bounded-duration/end-recurrence-with-month/year-interval":
+        # the specification marks a rejection "known:" only when the yielded points are exactly what the recorded algorithm
+        # (start = end - (n-1) * interval, then forward) produces
+        if not rej["clause"].startswith("known:"):
+            return None
+        return tag if rej["clause"][6:] in ("count-not-n", "end-anchor-not-included", "more-than-n-points") else None
     # each recorded finding manifests through particular clauses only: the end-anchored month/year series is a correct chain of
     # additions that merely starts in the wrong place (wrong count / end not reached); float accumulation can also bend a step
     clauses = {"bounded-duration/end-recurrence-with-month/year-interval": ("count-not-n", "end-anchor-not-included", "more-than-n-points"),
